@@ -90,8 +90,15 @@ func worldSessions(w *World) {
 		}
 		w.Check("C12.incumbent-serves")
 		res := env.probeTCP(fmt.Sprintf("10.0.0.1:%d", portOfName(name)), 10*time.Second)
-		want := s.c.Name + "/" + name
-		if res.ServedBy != want {
+		// a work connection is attributed to a session by its run id alone, so a late connection opened by the
+		// same client's previous transport identity legitimately serves for the new session
+		ok := false
+		for _, c := range env.clients {
+			if c.RunID == s.runID && res.ServedBy == c.Name+"/"+name {
+				ok = true
+			}
+		}
+		if !ok {
 			viol("ownership", "incumbent-not-serving-"+when, "%s: proxy %s is owned by session %s but a user connection was served by %q (%v); history: %v", when, name, s.c.Name, res.ServedBy, res.Err, history)
 		}
 	}
